@@ -132,6 +132,7 @@ def run_family(run, exe, spec, prop, configs, consts_of, wanted_inv, wanted_or, 
                 for v in resy["viols"]:
                     if v[0] in wanted_or or v[0] == "O-crash":
                         run.violation("%s|%s|explore %s" % (v[0], v[1], name), v[4], v[5])
+            mulib.preemption_bounded(run, exe, "%s/%s" % (spec, name), out["init"], len(conf["progs"]), out["env"], set(wanted_or) | {"O-crash"}, foreign if (foreign and not hit) else [])
         try:
             os.unlink(out["sched"])
         except OSError:
